@@ -125,8 +125,25 @@ class Gen(object):
     def count(self, key):
         self.cov[key] = self.cov.get(key, 0) + 1
 
+    FAMILIES = [[(1, 'a'), ('a', 1), (1, None), (1, 2)], [((1,), 'x'), ((1,), 2), (None, (0, 'b'))], [1j, 2j, (3+1j)],
+                [frozenset([1, 2]), frozenset([2, 3]), frozenset([1]), frozenset()]]
+
+    def unordered_family(self):
+        """ReplSet holding only members of one kind without a total order, then pops (mixed domain only): the
+        member pop() removes must not depend on comparing members (TypeError) or on the layout (frozensets)"""
+        fam = self.rng.choice(self.FAMILIES)
+        self.emit("set", ["clear"])
+        for x in self.rng.sample(fam, len(fam)):
+            self.emit("set", ["add", bm.lit(x)])
+        for _ in range(self.rng.randrange(1, len(fam))):
+            if self.emit("set", ["pop"]):
+                self.count("set.pop:only-unordered-members")
+
     def step(self):
         rng = self.rng
+        if self.mixed and rng.random() < 0.04:
+            self.unordered_family()
+            return
         cls = rng.choice(NAMES)
         op = (bm.gen_op if self.mixed else bo.gen_op)(rng, cls, self.size(cls))
         par = KWPARAM.get((cls, op[0]))
@@ -243,12 +260,12 @@ def evaluate(sim, ops, results, maxsize, mixed=False):
         called = k in results and results[k][0] != "raised-at-caller"
         if mixed:
             if cls == "set" and op[0] == "pop" and called:
-                want = bm.canon(bm.call_builtin(cls, builtins[cls], op, results[k][0] if results[k][1] == 0 else bm.NO_ORACLE))
+                want = bm.canon(bm.call_builtin(cls, builtins[cls], op, results[k][0] if results[k][1] == 0 and not isinstance(results[k][0], BaseException) else bm.NO_ORACLE))
             else:
                 want = bm.canon(bm.call_builtin(cls, builtins[cls], op))
         elif cls == "set" and op[0] == "pop" and called:
             # reference = the set abstraction: the returned element is a member, exactly it is removed
-            want = bo.call_builtin(cls, builtins[cls], op, results[k][0] if results[k][1] == 0 else bo.NO_ORACLE)
+            want = bo.call_builtin(cls, builtins[cls], op, results[k][0] if results[k][1] == 0 and not isinstance(results[k][0], BaseException) else bo.NO_ORACLE)
         else:
             want = bo.call_builtin(cls, builtins[cls], op)
         if k in results and results[k][0] == "raised-at-caller":
@@ -355,7 +372,7 @@ def run(ctx):
            "notes": "private attributes read: _SyncObj__raftLog (via sim.P) and those of corr.batteries_ops"}
     forms = cov.get("argument_forms", {})
     need = ["form:omitted", "form:positional", "form:keyword", "keyword-then-same-method-without-it",
-            "keyword-then-method-lacking-the-keyword", "keyword-then-other-battery"]
+            "keyword-then-method-lacking-the-keyword", "keyword-then-other-battery", "set.pop:only-unordered-members"]
     if cov["snapshot_installs"] == 0 and not viols:
         res["inconclusive"] = "no schedule made the straggler install a snapshot"
     elif [f for f in need if not forms.get(f)] and not viols:
